@@ -306,7 +306,15 @@ func blockFromBytes(ms []*wire.MsgTx, pre int) (*btcutil.Block, bool) {
 	if err != nil {
 		return nil, false
 	}
+	if pre == -1 {
+		blk = btcutil.NewBlockFromBlockAndBytes(blk.MsgBlock(), buf.Bytes())
+	}
 	if pre >= 0 && pre < len(ms) {
+		// both byte-based constructors wrap every transaction eagerly; the
+		// lazy path is NewBlock, one transaction wrapped on its own, then
+		// Bytes() caching the serialized block before Transactions()
+		blk = btcutil.NewBlock(blk.MsgBlock())
+		defer blk.Bytes()
 		if pre%2 == 0 {
 			blk.Tx(pre)
 		} else {
@@ -405,6 +413,11 @@ func exec1(op string, a []string) string {
 				return "undecodable"
 			}
 			blk = b2
+			if len(ms)%2 == 0 {
+				blk = btcutil.NewBlock(b2.MsgBlock())
+				blk.TxHash(0)
+				blk.Bytes()
+			}
 		}
 		err := blockchain.CheckBlockSanity(blk, chaincfg.RegressionNetParams.PowLimit, blockchain.NewMedianTime())
 		if err == nil {
@@ -495,7 +508,7 @@ func exec1(op string, a []string) string {
 	case "vwc", "vwcb":
 		blk := btcutil.NewBlock(&wire.MsgBlock{Transactions: parseTxs(a[0])})
 		if op == "vwcb" {
-			b2, ok := blockFromBytes(parseTxs(a[0]), -1)
+			b2, ok := blockFromBytes(parseTxs(a[0]), -2+len(a[0])%2)
 			if !ok {
 				return "undecodable"
 			}
